@@ -137,6 +137,10 @@ def typed_files(seed):
     bad = bytearray(st[0])
     bad[-1] = 2
     out.append(("cmd-startup-badvalue", "Command", None, bytes(bad)))
+    # binary contents whose first / last bytes look like ASCII whitespace
+    out.append(("struct-digest-ends-0x20", "TPM2B_DIGEST", None, bytes.fromhex("0004a5a60d20")))
+    out.append(("struct-alg-sha256", "TPMI_ALG_HASH", None, bytes.fromhex("000b")))
+    out.append(("struct-uint16-0x2009", "UINT16", None, bytes.fromhex("2009")))
     return out
 
 
@@ -251,12 +255,12 @@ def run_unit(unit):
                 check_convert(acc, argv, cont, buf, ns.TYPES[root if root != "Response" else "Command"], None, "pretty", {"harness": "cli", "argv": argv[:-1], "file": buf.hex(), "what": label})
                 # refusals
                 d = {"harness": "cli", "file": buf.hex(), "what": label}
-                for bad in (root[:-1] + "X", root.lower(), "Comand"):
+                for bad in (root[:-1] + "X", root.lower(), "Comand", "TPM2B_IV(", "list[BYTE", "*INT32", "TPMS_.*"):
                     argv = ["convert", "--in", cont, "--type", bad, path]
                     check_refusal(acc, argv, dict(d, argv=argv[:-1]), ("Did you mean",))
                 argv = ["convert", "--in", cont, "--type", "Response", path]
                 check_refusal(acc, argv, dict(d, argv=argv[:-1]), ("requires --command", "Did you mean"))
-                for badc in ("GetRandm", "getrandom", "TPM_CC.GetRandom"):
+                for badc in ("GetRandm", "getrandom", "TPM_CC.GetRandom", "GetRandom(", "+Startup", "Get[Random"):
                     argv = ["convert", "--in", cont, "--type", "Response", "--command", badc, path]
                     check_refusal(acc, argv, dict(d, argv=argv[:-1]), ("Did you mean",))
         elif kind == "type":
@@ -283,6 +287,22 @@ def run_unit(unit):
                 acc.count("states")
                 acc.shape(("type", label, cont))
                 argv = ["type", "--in", cont, path]
+                if cont == "binary" and not known_crash:
+                    # the default (--in auto) must list the same types whenever auto-detection takes the file for binary
+                    from tpmstream.io.auto.marshal import detect_format_and_yield_buffer
+
+                    try:
+                        detected = next(detect_format_and_yield_buffer(buf, strict=False))
+                    except Exception:  # noqa: BLE001
+                        detected = None
+                    if detected == "binary":
+                        for av in (["type", path], ["type", "--in", "auto", path]):
+                            acc.count("evaluations")
+                            acc.count("cli_runs")
+                            st_a, out_a, err_a = run_cli(av)
+                            got_a = [l for l in out_a.splitlines() if l.strip()]
+                            if st_a != 0 or sorted(got_a) != sorted(want):
+                                acc.violation({"cmd": "type", "clause": "listing-under-auto", "status": str(st_a)}, {"harness": "cli", "argv": av[:-1], "file": buf.hex(), "what": label}, f"type (auto-detected binary): status {st_a}, lists {len(got_a)} entries, the library accepts {len(want)}: missing {sorted(set(want) - set(got_a))[:4]}, extra {sorted(set(got_a) - set(want))[:4]}; stderr {err_a[-120:]}")
                 status, out, err = run_cli(argv)
                 d = {"harness": "cli", "argv": argv[:-1], "file": buf.hex(), "what": label}
                 got = [l for l in out.splitlines() if l.strip()]
